@@ -258,6 +258,34 @@ def check_hyp_assign(inp):
                 f'for cluster {w}')
 
 
+def check_mime_reg(inp):
+  """Mime's full-batch server gradient with the regularizer option is grad(mean real loss + regularizer): once, not 1/N
+  times, for every padding geometry (the momentum buffer after one round from a zero buffer is that gradient)."""
+  from fedjax.core import optimizers
+  rs = np.random.RandomState(inp.get('seed', 0))
+  clients = [(b'c%d' % i, cds.ClientDataset({'x': rs.randn(n, 3).astype(np.float32), 'y': rs.randn(n).astype(np.float32)}),
+              jax.random.PRNGKey(i)) for i, n in enumerate(inp['sizes'])]
+  params = {'w': jnp.asarray(rs.randn(3).astype(np.float32)), 'b': jnp.asarray(np.float32(0.3))}
+  r = reg if inp['reg'] else None
+  allx = {k: jnp.asarray(np.concatenate([np.asarray(d.raw_examples[k]) for _, d, _ in clients])) for k in ('x', 'y')}
+  want = jax.grad(lambda p_: jnp.mean(pel(p_, allx, None)) + (reg(p_) if inp['reg'] else 0.0))(params)
+  for bs, k in inp['geometries']:
+    alg = mime.mime(pel, optimizers.sgd(0.1, momentum=0.9), cds.ShuffleRepeatBatchHParams(batch_size=2, num_epochs=1, seed=0),
+                    cds.PaddedBatchHParams(batch_size=bs, num_batch_size_buckets=k), 1.0, regularizer=r)
+    st, _ = alg.apply(alg.init(params), clients)
+    leaves = [np.asarray(l) for l in jax.tree_util.tree_leaves(st.opt_state) if hasattr(l, 'shape')]
+    for name, w_ in (('w', want['w']), ('b', want['b'])):
+      cand = [l for l in leaves if l.shape == np.asarray(w_).shape]
+      if not any(np.allclose(l, np.asarray(w_), rtol=1e-4, atol=1e-5) for l in cand):
+        return (f'mime (regularizer={inp["reg"]}, padded batches of {bs}/{k}): the momentum buffer after one round {cand} is not the '
+                f'full-batch gradient of mean loss + regularizer {np.asarray(w_)} (leaf {name})')
+
+
+def sweep_mime_reg(tier, seed):
+  yield dict(sizes=[3, 5, 1], geometries=[[2, 1], [8, 3]], reg=True, seed=seed)
+  yield dict(sizes=[3, 5, 1], geometries=[[4, 2]], reg=False, seed=seed)
+
+
 def sweep_hyp_assign(tier, seed):
   geo = [[2, 1], [8, 3]] if tier == 'quick' else [[2, 1], [3, 1], [4, 2], [8, 3]]
   yield dict(lam=0.0, geometries=geo)
@@ -265,7 +293,7 @@ def sweep_hyp_assign(tier, seed):
 
 
 CHECKERS = {'masked': (check_masked, sweep_masked), 'empty_round': (check_empty_round, sweep_empty_round),
-            'hyp_assign': (check_hyp_assign, sweep_hyp_assign),
+            'hyp_assign': (check_hyp_assign, sweep_hyp_assign), 'mime_reg': (check_mime_reg, sweep_mime_reg),
             'agnostic_round': (check_agnostic_round, sweep_agnostic_round)}
 
 if __name__ == '__main__':
